@@ -69,11 +69,19 @@ def possibleHandlerNames (c : Ctx) : Option (List String) :=
 def handlers (c : Ctx) : Option (List String) :=
   (possibleHandlerNames c).map (· ++ [Facts.c19Fallback])
 
+/-- What a handler does with its standard input: nothing, `read` one line, or read everything
+(`cat`, `jq .`, `kubectl apply -f -` …). -/
+inductive StdinUse where
+  | none | line | all
+  deriving Repr, DecidableEq
+
 /-- The hook script: which functions it defines, and how the invocation of handler `h` for context
 number `i` ends (`true` = non-zero status). -/
 structure Env where
   defined : String → Bool
   fails : Nat → String → Bool
+  /-- what the handler does with the standard input it inherits (see `runFromIO`) -/
+  reads : String → StdinUse := fun _ => .none
 
 /-- What a run shows: the handlers invoked (context index, name) in order, whether the
 configuration was printed, and whether the exit status is zero. -/
@@ -104,6 +112,43 @@ def runFrom (env : Env) (i : Nat) : List Ctx → Result
 def hookRun (env : Env) (args : List String) (ctxs : List Ctx) : Result :=
   if args.head? == some Facts.c19ConfigFlag then { config := true }
   else runFrom env 0 ctxs
+
+/-! ## The standard input
+
+`hook::run` takes its indices from the *words* of a command substitution (``for i in `seq …` ``:
+`seq` has finished and its output is a word list before the first iteration), every `jq` of the
+dispatch reads the binding-context file (`context::global::jq … ${BINDING_CONTEXT_PATH}`) or a pipe
+fed from it, and the handler sub-shell `("$handler")` has no redirection. So file descriptor 0 of
+every handler is the hook's own standard input, positioned where the previous handlers left it, and
+the framework never moves it. `runFromIO` is `runFrom` with that stream threaded through; the second
+component lists what each invoked handler found. -/
+
+/-- What a handler that uses its standard input as `u` finds on `stdin`, and what it leaves. -/
+def consume : StdinUse → List String → Option (List String) × List String
+  | .none, s => (none, s)
+  | .line, [] => (some [], [])
+  | .line, l :: s => (some [l], s)
+  | .all, s => (some s, [])
+
+def runFromIO (env : Env) (i : Nat) (stdin : List String) : List Ctx → Result × List (Option (List String))
+  | [] => ({}, [])
+  | c :: cs =>
+    match handlers c with
+    | none => ({ ok := false }, [])
+    | some hs =>
+      match hs.find? env.defined with
+      | none => ({ ok := false }, [])
+      | some h =>
+        let (seen, rest) := consume (env.reads h) stdin
+        if env.fails i h then ({ log := [(i, h)], ok := false }, [seen])
+        else
+          let r := runFromIO env (i + 1) rest cs
+          ({ r.1 with log := (i, h) :: r.1.log }, seen :: r.2)
+
+def hookRunIO (env : Env) (args : List String) (stdin : List String) (ctxs : List Ctx) :
+    Result × List (Option (List String)) :=
+  if args.head? == some Facts.c19ConfigFlag then ({ config := true }, [])
+  else runFromIO env 0 stdin ctxs
 
 /-! ## The specification: the documented names and the property as a predicate on one observation -/
 namespace Spec
